@@ -52,6 +52,23 @@ static int g_oracle_bad;
 
 static void oracle(const char* msg) { printf("O %s\n", msg); g_oracle_bad = 1; }
 
+/* ---------- accounting allocator handed to POOL_create_advanced: what the pool really holds ----------
+ * (one thread runs at a time under the scheduler, so plain counters are enough) */
+typedef struct { size_t size; size_t pad; } zv_hdr;
+static size_t g_live_bytes; static long g_live_blocks;
+static void* zv_acct_alloc(void* o, size_t n) {
+    zv_hdr* h = (zv_hdr*)malloc(sizeof(zv_hdr) + n); (void)o;
+    if (!h) return NULL;
+    h->size = n; h->pad = 0x5a5a5a5au; g_live_bytes += n; g_live_blocks++; return h + 1;
+}
+static void zv_acct_free(void* o, void* p) {
+    zv_hdr* h; (void)o;
+    if (!p) return;
+    h = (zv_hdr*)p - 1;
+    if (h->pad != 0x5a5a5a5au) { oracle("free of a block that is not live (double free / foreign pointer)"); return; }
+    h->pad = 0; g_live_bytes -= h->size; g_live_blocks--; free(h);
+}
+
 /* ---------- canonical state ---------- */
 static void print_list(const int* a, int n) { int i; if (!n) putchar('-'); for (i = 0; i < n; i++) printf(i ? ",%d" : "%d", a[i]); }
 static size_t pending_count(const POOL_ctx* c) {
@@ -99,6 +116,7 @@ static void step_oracles(void) {
     p = pending_count(c);
     if (c->queueSize > 1 ? p > c->queueSize - 1 : p > 1) oracle("ring: more pending entries than the queue holds");
     if (c->threadLimit < 1 || c->threadLimit > c->threadCapacity) oracle("threadLimit outside 1..threadCapacity");
+    if (POOL_sizeof(c) != g_live_bytes) oracle("POOL_sizeof differs from the bytes the pool holds");
     if (!c->shutdown) {
         /* no lost wake-up on queuePopCond: min(pending, limit-busy) workers are about to look at the queue */
         for (t = C.K; t < nt; t++) { void* o; zv_status s = zv_thread_status(t, &o); if (s != ZS_COND && s != ZS_DONE && s != ZS_NONE) awake++; else if (s == ZS_COND && o != (void*)&c->queuePopCond) awake++; }
@@ -110,10 +128,32 @@ static void step_oracles(void) {
     }
 }
 
+/* lock discipline (the mechanism the property rests on): queueHead/queueTail/queueEmpty/numThreadsBusy/threadLimit/
+ * threadCapacity/shutdown change only in steps of a thread that holds queueMutex at the end of the step (a step is the
+ * code between two synchronisation operations, so "holds it at the end" = "held it while the code ran") */
+static size_t g_snap[7]; static int g_snap_valid;
+static void take_snap(size_t* v) {
+    POOL_ctx* c = g_ctx;
+    v[0] = c->queueHead; v[1] = c->queueTail; v[2] = (size_t)(c->queueEmpty != 0); v[3] = c->numThreadsBusy;
+    v[4] = c->threadLimit; v[5] = c->threadCapacity; v[6] = (size_t)(c->shutdown != 0);
+}
+static void lock_discipline(int step, int tid) {
+    size_t now[7];
+    if (g_freed) { g_snap_valid = 0; return; }
+    take_snap(now);
+    if (step >= 0 && g_snap_valid && memcmp(now, g_snap, sizeof now) && zv_mutex_owner(&g_ctx->queueMutex) != tid)
+        oracle("a pool field guarded by queueMutex was written by a thread that does not hold the mutex");
+    /* POOL_resize's contract: no job is started while threadLimit threads are busy */
+    if (step >= 0 && g_snap_valid && now[3] > g_snap[3] && now[3] > now[4])
+        oracle("a worker started a job although numThreadsBusy had reached threadLimit");
+    memcpy(g_snap, now, sizeof now); g_snap_valid = 1;
+}
+
 static void on_step(int step, int tid, int w) {
     if (step < 0) printf("I "); else printf("S %d %d ", tid, w);
     print_state(); putchar('\n');
     step_oracles();
+    lock_discipline(step, tid);
 }
 
 static void finish_line(const char* how) {
@@ -152,7 +192,15 @@ static void do_post(char kind, int jobid) {
     } else {
         int const ret = POOL_tryAdd(g_ctx, job_fn, r);
         if (ret != 0 && ret != 1) oracle("POOL_tryAdd returned neither 0 nor 1");
-        if (!ret) { r->refused = 1; refused_log[nrefused++] = jobid; }
+        if (!ret) {
+            /* the refusal was decided under the mutex, which this thread released in the step it is still executing: the
+             * fields are the ones it saw.  pool.h: "the maximum number of queued jobs before blocking is queueSize";
+             * queueSize 0 = hand-off: refuse only when a job waits or no thread is free */
+            size_t const pend = pending_count(g_ctx);
+            if (C.queue >= 1 ? pend < (size_t)C.queue : (pend == 0 && g_ctx->numThreadsBusy < g_ctx->threadLimit))
+                oracle("POOL_tryAdd refused a job although the queue had room");
+            r->refused = 1; refused_log[nrefused++] = jobid;
+        }
         else if (g_ctx->shutdown) { r->dropped = 1; dropped_log[ndropped++] = jobid; }
     }
     r->returned = 1;
@@ -204,12 +252,15 @@ static void run_case(void) {   /* in the forked child */
     }
     signal(SIGSEGV, on_crash); signal(SIGBUS, on_crash); signal(SIGFPE, on_crash); signal(SIGABRT, on_crash);
     zv_sched_begin(&zp);
-    g_ctx = POOL_create((size_t)C.threads, (size_t)C.queue);
+    {   ZSTD_customMem cm; cm.customAlloc = zv_acct_alloc; cm.customFree = zv_acct_free; cm.opaque = NULL;
+        g_ctx = POOL_create_advanced((size_t)C.threads, (size_t)C.queue, cm);
+    }
     if (!g_ctx) { printf("O POOL_create failed\n"); finish_line("CRASH"); fflush(stdout); send_trace(2); _exit(0); }
     for (i = 1; i < C.K; i++) zv_spawn(i, client_main, (void*)(long)i);
     run_prog(&C.progs[0]);
     for (i = 1; i < C.K; i++) zv_join_tid(i);
     POOL_free(g_ctx); g_freed = 1;
+    if (g_live_bytes != 0 || g_live_blocks != 0) oracle("POOL_free leaked memory of the pool");
     {   int k, bad = 0; char buf[160];
         for (k = 0; k < nrec; k++) {
             rec_t* r = &recs[k];
